@@ -79,6 +79,7 @@ def public(case):
 
 
 class C01(ProgramProperty):
+    configs = ('A', 'C', 'D')
     id = 'C01'
     technique = 'grammar-based property testing (Hypothesis choice stream -> PyGen programs) with a differential oracle: CPython ast canonical tree'
     level_text = ('~80k (quick) / 650k (thorough) grammar-generated programs and expressions (every statement, expression, pattern and literal form of the '
@@ -148,6 +149,19 @@ class C01(ProgramProperty):
             return Failure('tree_differs:' + norm_path(d[0]), text=case['text'], mode=case['mode'], path=d[0], reference=trim(d[1]), got=trim(d[2]))
         for kind, n in ref.kinds(r[1]).items():
             ctx.count('kind:' + kind, n)
+        # the same tree in every feature configuration: a quarter of the programs also go through the full-lexer build (other
+        # paths in the lexer, the soft-keyword pass and the token filter) or the num-bigint build
+        import zlib
+        other = {0: 'C', 1: 'C', 2: 'D'}.get(zlib.crc32(case['text'].encode('utf-8')) % 8) if not case.get('file') else None
+        if other:
+            ctx.count('also_in_build_' + other)
+            s2 = ctx.sut(other).call('parse', src=case['text'], mode=case['mode'])
+            if 'ok' not in s2:
+                return Failure(('rejects_valid:' if 'err' in s2 else 'panic_or_crash:') + other, text=case['text'], mode=case['mode'], reply=s2)
+            d = ref.first_diff(ref.erase(s['ok']), ref.erase(s2['ok']))
+            if d:
+                return Failure('tree_differs_between_builds:%s:%s' % (other, norm_path(d[0])), text=case['text'], mode=case['mode'], path=d[0],
+                               default_build=trim(d[1]), other_build=trim(d[2]))
         return None
 
     def worker_end(self, ctx):
